@@ -70,8 +70,10 @@ func (c *sorterClass_[V]) DefaultRanker() RankingFunction[V] {
 // Constructors
 
 func (c *sorterClass_[V]) Make() SorterLike[V] {
+	// Each sorter ranks with a collator of its own since a collator keeps
+	// traversal state that must not be shared between sorters.
 	return &sorter_[V]{
-		ranker_: c.defaultRanker_,
+		ranker_: Collator[V]().Make().RankValues,
 	}
 }
 
